@@ -1,8 +1,8 @@
 """Which suites, theorems and extracted data decide which property."""
-from . import dhcpwire
+from . import dhcpwire, pool
 
 SUITES = {}
-for cls in [dhcpwire.DhcpRoundTrip, dhcpwire.DhcpParse, dhcpwire.Frame, dhcpwire.BroadcastFlag]:
+for cls in [dhcpwire.DhcpRoundTrip, dhcpwire.DhcpParse, dhcpwire.Frame, dhcpwire.BroadcastFlag, pool.PoolHistory]:
     SUITES[cls.name] = cls()
 
 TRUSTED_BASE = [
@@ -11,6 +11,15 @@ TRUSTED_BASE = [
     "tools/extract.py regexes pick the expressions the code executes (shape assertions, fail closed)",
     "Lean compiler/runtime for the driver only (the theorems do not depend on it)",
 ]
+
+POOL_RULE = ("histories of 2..40 ops over allocate_address(client, requested|none, pool, min, max) x clock advance x "
+             "restart (on-disk DB) x metrics x second-clock-read skew, 1..5 clients (near-identical ids), universes of 1..8 "
+             "addresses plus addresses outside, pools that change between ops, clock steps landing on expiries; "
+             "non-trivial = at least two allocations; distinct = distinct history line")
+POOL_ASSUME = ["packets are handled one at a time (the tokio mutex around the pool is outside the model)",
+               "the wall clock does not go backwards; times stay below 2^32 s (year 2106)"]
+POOL_TRUST = ["SQLite modelled as a finite map address -> row with INSERT OR REPLACE / ORDER BY .. LIMIT 1 semantics; ties and the consistent-hash order are nondeterministic in the model",
+              "the harness overrides clock_gettime(CLOCK_REALTIME) in-process to own the clock"]
 
 # property -> suites (name, cases quick, cases thorough), extracted items, notes
 PROPS = {
@@ -24,5 +33,27 @@ PROPS = {
         assumptions=["HashMap iteration order is arbitrary: the model serialises in the order the harness reports",
                      "the reply destination choice lives in an async fn needing sockets: tied by extraction of its shape, not executed"],
         trusted=["std::collections::HashMap as a finite map with unspecified iteration order"],
+    ),
+    "C01": dict(
+        suites=[("pool", 2500, 60000)],
+        extracted=["pool.requestedInUseCmp", "pool.newInUseCmp", "pool.ownCurrentCmp", "pool.step1Order", "pool.step2Order", "pool.structFields"],
+        rule=POOL_RULE,
+        assumptions=POOL_ASSUME, trusted=POOL_TRUST,
+    ),
+    "C09": dict(
+        suites=[("pool", 2500, 60000)],
+        extracted=["pool.requestedInUseCmp", "pool.newInUseCmp", "pool.ownCurrentCmp", "pool.step1Order", "pool.step2Order"],
+        rule=POOL_RULE,
+        assumptions=POOL_ASSUME, trusted=POOL_TRUST,
+    ),
+    "C10": dict(
+        suites=[("pool", 2500, 60000)],
+        extracted=["dhcp.DEFAULT_MIN_LEASE", "dhcp.DEFAULT_MAX_LEASE"],
+        rule=POOL_RULE, assumptions=POOL_ASSUME, trusted=POOL_TRUST,
+    ),
+    "C20": dict(
+        suites=[("pool", 2500, 60000)],
+        extracted=["pool.metricsSql", "pool.metricsReturnOrder"],
+        rule=POOL_RULE, assumptions=POOL_ASSUME, trusted=POOL_TRUST,
     ),
 }
